@@ -65,7 +65,7 @@ CLAIMED = {
             "positive value, a blocked waiter with units available implies a post in progress, value at quiescence. Tied to /repo on every run by "
             "per-access trace comparison of the instrumented fiber_semaphore.c + fiber_manager.c + fiber.c with the extracted model; the MPMC waiter "
             "queue (include/mpmc_fifo.h over hazard pointers), which the semaphore model takes as atomic, is discharged as a layer on every run "
-            "(its theorems, its own lock-step correspondence and store-buffer pass).",
+            "(its theorems, its own lock-step correspondence and store-buffer pass). Because the T1 machine has no migration between kernel threads, every run also executes whole-runtime (T2) programs of this primitive's own operations on the real scheduler with work stealing (kernel acceptor of C01 + whole-runtime monitor incl. result codes of the lock sections) and checks the stale-manager source obligation (tools/lint/stale_manager.py).",
             "Trusts: Coq kernel; extraction + driver; rt/rt.c, rt/t1.c (context switch, run queues, event layer replaced: given C01 and C02); MPMC queue "
             "operations atomic (C13); SC interleaving; -O0 build.",
             "DESIGN.md 6 C06, 12.1"),
@@ -180,7 +180,7 @@ CLAIMED = {
             "trylock CAS succeeds only with no owner and no announced waiter; counter = 1 - owners - announced; the value read back in the critical "
             "section is the owner's own write; a contended unlock pops exactly one waiter and wakes exactly that fiber, which owns the mutex from the "
             "pop on; announced waiter and no owner implies an unlocker in its pop loop; at quiescence nobody sleeps on a free mutex. Tied to /repo on "
-            "every run by per-access trace comparison of the instrumented fiber_mutex.c + fiber_manager.c + fiber.c with the extracted model.",
+            "every run by per-access trace comparison of the instrumented fiber_mutex.c + fiber_manager.c + fiber.c with the extracted model. Because the T1 machine has no migration between kernel threads, every run also executes whole-runtime (T2) programs of this primitive's own operations on the real scheduler with work stealing (kernel acceptor of C01 + whole-runtime monitor incl. result codes of the lock sections) and checks the stale-manager source obligation (tools/lint/stale_manager.py).",
             "Trusts: Coq kernel; extraction + driver; rt/rt.c, rt/t1.c (context switch, run queues, event layer replaced: given C01 and C02); SC "
             "interleaving; -O0 build; programs unlock only what they hold. Counter states beyond what a harness can populate (32767..65537 and 2^31-2 "
             "announced waiters) are injected as states (reachable by mutex_counter_inv) for the non-blocking operations only (rt/h_init.c), which also "
@@ -193,7 +193,7 @@ CLAIMED = {
             "sees >= 1 registered waiter releases exactly one before it returns and a broadcast exactly the number registered at its exchange; when "
             "the user mutex is released on behalf of a waiter the waiter is already registered (atomic unlock-and-wait); cond_wait returns only as the "
             "unique holder of the user mutex; one consumer per waiter list. Tied to /repo by per-access lock-step of fiber_cond.c + fiber_mutex.c + "
-            "fiber_manager.c + fiber.c.",
+            "fiber_manager.c + fiber.c. Because the T1 machine has no migration between kernel threads, every run also executes whole-runtime (T2) programs of this primitive's own operations on the real scheduler with work stealing (kernel acceptor of C01 + whole-runtime monitor incl. result codes of the lock sections) and checks the stale-manager source obligation (tools/lint/stale_manager.py).",
             "Trusts: Coq kernel; extraction + driver; rt/rt.c, rt/t1.c (given C01 and C02); SC interleaving; -O0 build. The yield inside the deferred "
             "unlock is modelled client-side (Cond.kstepC) because T1K models it as the sleeper's own yield.",
             "DESIGN.md 6 C05, 12.1"),
@@ -233,7 +233,7 @@ CLAIMED = {
             "counts of owners/handed/waiting fibers; a releasing CAS that leaves waiters transfers ownership in that CAS to exactly one waiting writer or "
             "to all waiting readers and then wakes exactly that many; nobody blocked on a lock that nobody owns or has been handed; try variants contain no "
             "wait and succeed only when legal; one consumer across both waiter lists; pack/unpack round trip and no carry between fields. Tied to /repo by "
-            "per-access lock-step of fiber_rwlock.c + fiber_manager.c.",
+            "per-access lock-step of fiber_rwlock.c + fiber_manager.c. Because the T1 machine has no migration between kernel threads, every run also executes whole-runtime (T2) programs of this primitive's own operations on the real scheduler with work stealing (kernel acceptor of C01 + whole-runtime monitor incl. result codes of the lock sections) and checks the stale-manager source obligation (tools/lint/stale_manager.py).",
             "Trusts: Coq kernel; extraction + driver; rt/rt.c, rt/t1.c (given C01/C02); SC; -O0. Word values >= 2^40 print opaquely in the trace (both "
             "sides), the monitor reconstructs the counts from the events. Beyond 2^21 participants the fields wrap (rw_overflow_refuted; documented limit).",
             "DESIGN.md 6 C07"),
